@@ -589,6 +589,20 @@ fn mutations(c: &mut Ctx, base: &str, all_positions: bool, budget: usize) {
                 judge_string(c, "mutation:replace", &t.into_iter().collect::<String>());
             }
         }
+        // bit neighbours of the character at this position: case-folding tricks such as `c | 32`,
+        // `c & !32`, `c ^ 32` (and the same with bit 4 / bit 6 / bit 7) accept exactly these
+        if k < n && (cs[k] as u32) < 128 {
+            for mask in [0x20u8, 0x10, 0x40, 0x01, 0x80] {
+                let b = cs[k] as u8;
+                for nb in [b ^ mask, b & !mask, b | mask] {
+                    if nb != b && nb < 128 {
+                        let mut t: Vec<char> = cs.clone();
+                        t[k] = nb as char;
+                        judge_string(c, "mutation:bit-neighbour", &t.into_iter().collect::<String>());
+                    }
+                }
+            }
+        }
         // duplicate / swap with neighbour
         if k + 1 < n {
             let mut t: Vec<char> = cs.clone();
